@@ -104,6 +104,20 @@ def make_case(rng, i, tier):
         elif name == "equals":
             op["flags"] = [rng.random() < 0.3 for _ in range(4)]
         hist.append(op)
+    if i % 11 == 3:
+        # coincidences a cheap "did anything change?" test would miss: one pitch on two channels whose ends SWAP ticks under
+        # note-length quantisation (the (tick, pitch) layout of the absolute list stays the same while the owners of the note-offs
+        # change), both views fresh when the operation runs
+        import random
+        r7 = random.Random(f"c04-crossing:{i}")
+        t0 = r7.choice([0, 6, 24])
+        a, b = r7.choice([(13, 11), (25, 23), (7, 5), (13, 11)])
+        pool[0] = {"notes": [[0, 60, t0, a, 40], [1, 60, t0 + 1, b, 41]] + ([[0, 62, t0 + 30, 12, 42]] if r7.random() < 0.5 else []),
+                   "extra": [], "start": "both"}
+        pos = r7.randrange(0, min(2, len(hist)) + 1)
+        hist.insert(pos, {"op": "read_both", "s": 0, "o": 1})
+        hist.insert(pos + 1, {"op": r7.choice(["qnl", "qnl", "qan"]), "s": 0, "o": 1, "dne": False})
+        hist.insert(pos + 2, {"op": r7.choice(["read_rel", "read_both", "pad"]), "s": 0, "o": 1, "n": 50})
     if i % 7 == 4:
         # a public call that the library rejects (it raises) somewhere in the history: it must leave both views as they were
         kinds = ["concatenate_bad_tail", "scale_fraction", "merge_bad_tail", "scale_small", "concatenate_bad_tail_two"]
